@@ -2,6 +2,7 @@ package main
 
 import (
 	"fmt"
+	"sync"
 	"go/types"
 	"sort"
 	"strings"
@@ -272,6 +273,8 @@ type Ctx struct {
 	decl   map[string]bool
 	quant  int // > 0 while a term under a quantifier is being built: nothing mentioning bound variables may be emitted
 	qfacts [][]string // typing facts about terms under the binder, per open quantifier
+	infos   []*lineInfo
+	infoMu  sync.Mutex
 	globalQ []qInst   // universally quantified facts asserted unconditionally (append / copy axioms, preservation)
 }
 
